@@ -271,7 +271,7 @@ func splitList(s string) []string {
 // Main is the entry point of `vh cert <mode> ...`. Exit codes: 0 done, 2 harness failure. It never judges.
 func Main(args []string) int {
 	if len(args) < 1 {
-		fmt.Fprintln(os.Stderr, "usage: vh cert info|graph|paths [flags]")
+		fmt.Fprintln(os.Stderr, "usage: vh cert info|graph|paths|deliver [flags]")
 		return 2
 	}
 	mode := args[0]
@@ -333,7 +333,7 @@ func Main(args []string) int {
 		if err := r.graph(edges, *qmode, *pathsOut); err != nil {
 			return fail(err)
 		}
-	case "paths":
+	case "paths", "deliver":
 		var scripts [][]action
 		if err := vcommon.ReadLines(*in, func(raw json.RawMessage) error {
 			var sc []action
@@ -345,7 +345,12 @@ func Main(args []string) int {
 		}); err != nil {
 			return fail(err)
 		}
-		if err := r.paths(scripts); err != nil {
+		if mode == "deliver" {
+			err = r.deliverScripts(scripts, u.Owners)
+		} else {
+			err = r.paths(scripts)
+		}
+		if err != nil {
 			return fail(err)
 		}
 	default:
